@@ -1,7 +1,17 @@
 
+val negb : bool -> bool
+
+type nat =
+| O
+| S of nat
+
 type ('a, 'b) sum =
 | Inl of 'a
 | Inr of 'b
+
+val fst : ('a1 * 'a2) -> 'a1
+
+val snd : ('a1 * 'a2) -> 'a2
 
 val app : 'a1 list -> 'a1 list -> 'a1 list
 
@@ -9,6 +19,8 @@ type comparison =
 | Eq
 | Lt
 | Gt
+
+val compOpp : comparison -> comparison
 
 type uint =
 | Nil
@@ -47,6 +59,15 @@ type z =
 | Z0
 | Zpos of positive
 | Zneg of positive
+
+module type UsualOrderedTypeFull =
+ sig
+  type t
+
+  val compare : t -> t -> comparison
+
+  val eq_dec : t -> t -> bool
+ end
 
 module Pos :
  sig
@@ -92,6 +113,8 @@ module Coq_Pos :
   val to_little_uint : positive -> uint
 
   val to_uint : positive -> uint
+
+  val eq_dec : positive -> positive -> bool
  end
 
 module N :
@@ -120,7 +143,22 @@ val n_of_digits : bool list -> n
 
 val n_of_ascii : ascii -> n
 
+val nth : nat -> 'a1 list -> 'a1 -> 'a1
+
+val last : 'a1 list -> 'a1 -> 'a1
+
 val rev0 : 'a1 list -> 'a1 list
+
+val map : ('a1 -> 'a2) -> 'a1 list -> 'a2 list
+
+val forallb : ('a1 -> bool) -> 'a1 list -> bool
+
+module Z :
+ sig
+  val compare : z -> z -> comparison
+
+  val eq_dec : z -> z -> bool
+ end
 
 type string =
 | EmptyString
@@ -139,6 +177,8 @@ val dec_N : n -> text
 val dec_Z : z -> text
 
 val is_digit : n -> bool
+
+val join : text -> text list -> text
 
 type semver = { major : n; minor : n; patch : n }
 
@@ -179,3 +219,266 @@ val bump_patch : semver -> semver option
 val bump_minor : semver -> semver option
 
 val bump_major : semver -> semver option
+
+type 't bound =
+| Incl of 't
+| Excl of 't
+| Unb
+
+module RangeM :
+ functor (V:UsualOrderedTypeFull) ->
+ sig
+  type ver = V.t
+
+  type bnd = V.t bound
+
+  type seg = bnd * bnd
+
+  type range = seg list
+
+  val vltb : ver -> ver -> bool
+
+  val vleb : ver -> ver -> bool
+
+  val veqb : ver -> ver -> bool
+
+  val vmax : ver -> ver -> ver
+
+  val empty : range
+
+  val full : range
+
+  val higher_than : ver -> range
+
+  val strictly_higher_than : ver -> range
+
+  val strictly_lower_than : ver -> range
+
+  val lower_than : ver -> range
+
+  val between : ver -> ver -> range
+
+  val singleton : ver -> range
+
+  val is_empty : range -> bool
+
+  val valid_segment : bnd -> bnd -> bool
+
+  val end_before_start_with_gap : bnd -> bnd -> bool
+
+  val left_start_is_smaller : bnd -> bnd -> bool
+
+  val left_end_is_smaller : bnd -> bnd -> bool
+
+  val within_bounds : ver -> seg -> comparison
+
+  val cmp_bounds_start : bnd -> bnd -> comparison
+
+  val cmp_bounds_end : bnd -> bnd -> comparison
+
+  val acc_end : bnd -> bnd -> bnd
+
+  val inter_start : bnd -> bnd -> bnd
+
+  val flip : bnd -> bnd
+
+  val negate_segments : bnd -> range -> range
+
+  val complement : range -> range
+
+  val merge : range -> range -> range
+
+  val coalesce : seg -> range -> range
+
+  val union : range -> range -> range
+
+  val inter_emit : bnd -> bnd -> bnd -> bnd -> range
+
+  val intersection : range -> range -> range
+
+  val is_disjoint : range -> range -> bool
+
+  val advance : bnd -> seg -> range -> (seg * range) option
+
+  val subset_loop : range -> seg -> range -> bool
+
+  val subset_of : range -> range -> bool
+
+  val cursor : ver -> range -> bool * range
+
+  val contains : range -> ver -> bool
+
+  val contains_many : range -> ver list -> bool list
+
+  val as_singleton : range -> ver option
+
+  val bounding_range : range -> (bnd * bnd) option
+
+  val from_range_bounds : bnd -> bnd -> range
+
+  val gaps_ok : range -> bool
+
+  val check_invariants : range -> bool
+
+  val loc_cursor : ver -> nat -> range -> (nat option * nat) * range
+
+  val version_locations : nat -> range -> ver list -> nat option list
+
+  type group = nat option * nat option
+
+  val gal : group option -> nat option list -> group list
+
+  val group_adjacent_locations : nat option list -> group list
+
+  val keep_segments : range -> group list -> range
+
+  val simplify : range -> ver list -> range
+
+  val iter : range -> (bnd * bnd) list
+
+  val range_cmp : range -> range -> comparison
+
+  val range_partial_cmp : range -> range -> comparison option
+
+  val bound_eqb : bnd -> bnd -> bool
+
+  val range_eqb : range -> range -> bool
+
+  val display_seg : (ver -> text) -> seg -> text
+
+  val display : (ver -> text) -> range -> text
+ end
+
+module ZV :
+ sig
+  type t = z
+
+  val eq_dec : z -> z -> bool
+
+  val compare : z -> z -> comparison
+ end
+
+module RZ :
+ sig
+  type ver = z
+
+  type bnd = z bound
+
+  type seg = bnd * bnd
+
+  type range = seg list
+
+  val vltb : ver -> ver -> bool
+
+  val vleb : ver -> ver -> bool
+
+  val veqb : ver -> ver -> bool
+
+  val vmax : ver -> ver -> ver
+
+  val empty : range
+
+  val full : range
+
+  val higher_than : ver -> range
+
+  val strictly_higher_than : ver -> range
+
+  val strictly_lower_than : ver -> range
+
+  val lower_than : ver -> range
+
+  val between : ver -> ver -> range
+
+  val singleton : ver -> range
+
+  val is_empty : range -> bool
+
+  val valid_segment : bnd -> bnd -> bool
+
+  val end_before_start_with_gap : bnd -> bnd -> bool
+
+  val left_start_is_smaller : bnd -> bnd -> bool
+
+  val left_end_is_smaller : bnd -> bnd -> bool
+
+  val within_bounds : ver -> seg -> comparison
+
+  val cmp_bounds_start : bnd -> bnd -> comparison
+
+  val cmp_bounds_end : bnd -> bnd -> comparison
+
+  val acc_end : bnd -> bnd -> bnd
+
+  val inter_start : bnd -> bnd -> bnd
+
+  val flip : bnd -> bnd
+
+  val negate_segments : bnd -> range -> range
+
+  val complement : range -> range
+
+  val merge : range -> range -> range
+
+  val coalesce : seg -> range -> range
+
+  val union : range -> range -> range
+
+  val inter_emit : bnd -> bnd -> bnd -> bnd -> range
+
+  val intersection : range -> range -> range
+
+  val is_disjoint : range -> range -> bool
+
+  val advance : bnd -> seg -> range -> (seg * range) option
+
+  val subset_loop : range -> seg -> range -> bool
+
+  val subset_of : range -> range -> bool
+
+  val cursor : ver -> range -> bool * range
+
+  val contains : range -> ver -> bool
+
+  val contains_many : range -> ver list -> bool list
+
+  val as_singleton : range -> ver option
+
+  val bounding_range : range -> (bnd * bnd) option
+
+  val from_range_bounds : bnd -> bnd -> range
+
+  val gaps_ok : range -> bool
+
+  val check_invariants : range -> bool
+
+  val loc_cursor : ver -> nat -> range -> (nat option * nat) * range
+
+  val version_locations : nat -> range -> ver list -> nat option list
+
+  type group = nat option * nat option
+
+  val gal : group option -> nat option list -> group list
+
+  val group_adjacent_locations : nat option list -> group list
+
+  val keep_segments : range -> group list -> range
+
+  val simplify : range -> ver list -> range
+
+  val iter : range -> (bnd * bnd) list
+
+  val range_cmp : range -> range -> comparison
+
+  val range_partial_cmp : range -> range -> comparison option
+
+  val bound_eqb : bnd -> bnd -> bool
+
+  val range_eqb : range -> range -> bool
+
+  val display_seg : (ver -> text) -> seg -> text
+
+  val display : (ver -> text) -> range -> text
+ end
+
+val rz_display : RZ.range -> text
